@@ -29,6 +29,7 @@ import (
 	"github.com/nuts-foundation/nuts-node/auth"
 	"github.com/nuts-foundation/nuts-node/auth/oauth"
 	cryptoNuts "github.com/nuts-foundation/nuts-node/crypto"
+	"github.com/nuts-foundation/nuts-node/crypto/jwx"
 	"github.com/nuts-foundation/nuts-node/vdr/resolver"
 	"net/url"
 )
@@ -184,6 +185,10 @@ func (j jar) validate(ctx context.Context, rawToken string, clientId string) (oa
 }
 
 func compareThumbprint(configurationKey jwk.Key, publicKey crypto.PublicKey) error {
+	// the configuration comes from a remote party: calculating the thumbprint of an EC key panics if a coordinate doesn't fit the curve
+	if err := jwx.ValidateECCoordinates(configurationKey); err != nil {
+		return err
+	}
 	thumbprintLeft, err := configurationKey.Thumbprint(crypto.SHA256)
 	if err != nil {
 		return err
